@@ -6,7 +6,6 @@ package main
 import (
 	"context"
 	"fmt"
-	"strings"
 	"sync"
 	"time"
 
@@ -120,37 +119,14 @@ func runLife(lc lifeCase) (res lifeResult) {
 			ev := l.take()
 			r := "StartOk"
 			if err != nil {
-				msg := err.Error()
-				idx := 9999
-				if m := svcRe.FindStringSubmatch(msg); m != nil {
-					if i := nameIdx(cur, m[1]); i >= 0 {
-						idx = i
-					}
-				}
-				switch {
-				case strings.HasPrefix(msg, "can't init service"):
-					r = vlib.App("ErrInit", vlib.Nat(idx))
-				case strings.HasPrefix(msg, "can't run service"):
-					r = vlib.App("ErrRun", vlib.Nat(idx))
-				default:
-					r = vlib.App("ErrInit", vlib.Nat(9999))
-				}
+				r, _ = startErrTerm(cur, err)
 			}
 			res.opTerms = append(res.opTerms, vlib.App("HStart", lateTerm))
 			res.obsTerms = append(res.obsTerms, vlib.Pair(eventsTerm(ev), vlib.App("HRStart", r)))
 		case "close":
 			err := a.Close(ctx)
 			ev := l.take()
-			var errs []int
-			if err != nil {
-				for _, line := range strings.Split(err.Error(), "\n") {
-					if m := compRe.FindStringSubmatch(line); m != nil {
-						errs = append(errs, nameIdx(cur, m[1]))
-					} else {
-						errs = append(errs, 9999)
-					}
-				}
-			}
+			errs := closeErrIdx(cur, err)
 			res.opTerms = append(res.opTerms, "HClose")
 			res.obsTerms = append(res.obsTerms, vlib.Pair(eventsTerm(ev), vlib.App("HRClose", vlib.NatList(errs))))
 		}
